@@ -416,8 +416,13 @@ func rewriteFile(p *packages.Package, f *ast.File, src []byte, stats map[string]
 func (r *rewriter) blocking(f *ast.File) {
 	inComm := map[ast.Node]bool{}
 	commaOk := map[*ast.UnaryExpr]bool{}
+	labelled := map[*ast.SelectStmt]bool{} // selects carrying a label of the program's own are left alone
 	ast.Inspect(f, func(n ast.Node) bool {
 		switch x := n.(type) {
+		case *ast.LabeledStmt:
+			if sel, ok := x.Stmt.(*ast.SelectStmt); ok {
+				labelled[sel] = true
+			}
 		case *ast.CommClause:
 			if x.Comm != nil {
 				inComm[x.Comm] = true
@@ -447,34 +452,80 @@ func (r *rewriter) blocking(f *ast.File) {
 		}
 		switch x := n.(type) {
 		case *ast.SelectStmt:
-			// a select that would block becomes a loop of non-blocking tries, the turn given away in between
-			hasDefault, nakedContinue := false, false
-			for _, c := range x.Body.List {
+			// A select that would block: the caller holding the turn tries its communications without
+			// blocking and gives the turn away in between; any other goroutine runs the select as written.
+			// Operands are evaluated once, before, as Go does on entering a select.
+			if labelled[x] || len(x.Body.List) == 0 {
+				break
+			}
+			ok := true
+			type subst struct {
+				from, to token.Pos
+				name     string
+			}
+			var hoist []subst
+			for k, c := range x.Body.List {
 				cc := c.(*ast.CommClause)
 				if cc.Comm == nil {
-					hasDefault = true
+					ok = false // has a default: never blocks
+					break
+				}
+				var ch ast.Expr
+				switch cm := cc.Comm.(type) {
+				case *ast.SendStmt:
+					ch = cm.Chan
+					if hasCall(cm.Value) {
+						ok = false // the value would be computed again at every try
+					}
+				case *ast.ExprStmt:
+					if u, isRecv := ast.Unparen(cm.X).(*ast.UnaryExpr); isRecv {
+						ch = u.X
+					}
+				case *ast.AssignStmt:
+					if len(cm.Rhs) == 1 {
+						if u, isRecv := ast.Unparen(cm.Rhs[0]).(*ast.UnaryExpr); isRecv {
+							ch = u.X
+						}
+					}
+				}
+				if ch == nil {
+					ok = false
+					break
+				}
+				if hasCall(ch) {
+					hoist = append(hoist, subst{ch.Pos(), ch.End(), fmt.Sprintf("zzc%d_%d", len(sites), k)})
 				}
 				for _, st := range cc.Body {
 					ast.Inspect(st, func(m ast.Node) bool {
-						switch y := m.(type) {
-						case *ast.ForStmt, *ast.RangeStmt, *ast.FuncLit:
-							return false // a continue in there is theirs
-						case *ast.BranchStmt:
-							if y.Tok == token.CONTINUE && y.Label == nil {
-								nakedContinue = true
-							}
+						if _, isLabel := m.(*ast.LabeledStmt); isLabel {
+							ok = false // the body is written out twice: a label may not be
 						}
 						return true
 					})
 				}
 			}
-			if !hasDefault && !nakedContinue && len(x.Body.List) > 0 {
-				id := newSite(r.fset, x.Pos(), "chan", "", "select")
-				r.insert(x.Pos(), "for { ", 2)
-				r.insert(x.Body.Rbrace, fmt.Sprintf("default: zzsimrt.SelectBlocked(%d); continue\n", id), 0)
-				r.insert(x.End(), "; break }", 0)
-				r.stats["select"]++
+			if !ok {
+				break
 			}
+			id := newSite(r.fset, x.Pos(), "chan", "", "select")
+			label := fmt.Sprintf("zzsel%d", id)
+			// the select as written (for goroutines that are not the scheduler's), operands replaced
+			orig := []byte(r.text(x))
+			for i := len(hoist) - 1; i >= 0; i-- {
+				h := hoist[i]
+				from, to := r.off(h.from)-r.off(x.Pos()), r.off(h.to)-r.off(x.Pos())
+				orig = append(orig[:from:from], append([]byte(h.name), orig[to:]...)...)
+			}
+			head := "{ "
+			for _, h := range hoist {
+				head += fmt.Sprintf("%s := %s; ", h.name, string(r.src[r.off(h.from):r.off(h.to)]))
+				r.replace(h.from, h.to, h.name)
+			}
+			head += fmt.Sprintf("if zzsimrt.TurnHolder() { %s: ", label)
+			r.insert(x.Pos(), head, 2)
+			r.insert(x.Body.Rbrace, fmt.Sprintf("default: zzsimrt.SelectBlocked(%d); goto %s\n", id, label), 0)
+			r.insert(x.End(), " } else { "+string(orig)+" } }", 0)
+			r.stats["select"]++
 		case *ast.SendStmt:
 			id := newSite(r.fset, x.Pos(), "chan", "", r.text(x.Chan))
 			r.insert(x.Pos(), fmt.Sprintf("zzsimrt.Send(%d, ", id), 2)
@@ -507,6 +558,20 @@ func (r *rewriter) blocking(f *ast.File) {
 		return true
 	}
 	ast.Inspect(f, visit)
+}
+
+func hasCall(e ast.Expr) bool {
+	found := false
+	ast.Inspect(e, func(n ast.Node) bool {
+		switch n.(type) {
+		case *ast.CallExpr:
+			found = true
+		case *ast.FuncLit:
+			return false
+		}
+		return !found
+	})
+	return found
 }
 
 func apply(src []byte, edits []edit, tail string) []byte {
